@@ -3,7 +3,7 @@
 Nothing here calls PennyLane's own evaluation code (pauli_rep, matrix(), process_state ...): observables are decoded
 structurally (class + operands + data) into Pauli sentences {word tuple: coefficient}, or applied numerically to a state
 vector that TLC computed exactly.  The exact values (Pauli-word expectations, probabilities, states) come from
-spec/trace/TapeEval.tla; spec/sys/MeasSplit.tla decides the exact identities (see `build_trace_tape`, `linear_probe`).
+spec/trace/TapeEval.tla; spec/sys/MeasSplit.tla decides the exact identities (see `trace_tape`, `linear_probe`).
 
 word        tuple of letters 0..3 (I, X, Y, Z) over wire positions 1..n
 sentence    {word: complex}
